@@ -23,6 +23,10 @@ TLA_JAR = "/opt/veriftools/tla/tla2tools.jar"
 TLA_CP = TLA_JAR + ":/opt/veriftools/tla/CommunityModules-deps.jar"
 
 
+class CannotReplay(Exception):
+    """the replay file does not carry an executable case (e.g. a violation of the model itself): re-run the check instead"""
+
+
 class MachineryError(Exception):
     """Something in the verification machinery itself failed (exit status 2)."""
 
@@ -278,6 +282,8 @@ class Ctx(object):
         if machinery_error:
             ev["coverage"]["machinery_error"] = str(machinery_error)[:2000]
         d = os.environ.get("VERIF_EVIDENCE_DIR") or os.path.join(VERIF, "evidence")
+        if self.prop.upper().startswith("G"):       # growth checks are not listed properties: their reports live beside, not among, the evidence files
+            d = os.path.join(os.path.dirname(d), "growth_evidence") if not os.environ.get("VERIF_EVIDENCE_DIR") else os.path.join(d, "growth")
         os.makedirs(d, exist_ok=True)
         with open(os.path.join(d, self.prop + ".json"), "w") as f:
             json.dump(ev, f, indent=1, sort_keys=True)
